@@ -1026,10 +1026,12 @@ impl<S: CommandSink> CommandSink for HintingSink<'_, S> {
         // For invalid hint masks, FreeType assumes all hints are active.
         // See <https://gitlab.freedesktop.org/freetype/freetype/-/blob/80a507a6b8e3d2906ad2c8ba69329bd2fb2a85ef/src/psaux/pshints.c#L844>
         let mask = HintMask::new(mask).unwrap_or_else(HintMask::all);
-        if mask != self.mask {
-            self.mask = mask;
-            self.map.is_valid = false;
-        }
+        // FreeType flags every mask it reads as new and rebuilds the hint
+        // map at the next path operator, even when the bytes repeat the
+        // mask already in effect (stems placed by the previous map are
+        // locked by then, so the rebuilt map can differ).
+        self.mask = mask;
+        self.map.is_valid = false;
     }
 
     fn counter_mask(&mut self, mask: &[u8]) {
